@@ -199,7 +199,9 @@ def run(prog, chk):
                 adj.setdefault(f.qual, 0)
                 adj[f.qual] += 1
     chk.floor("R5", "WINDOW_ADJUST builders", len(adj), 2)
-    allowed_bufs = {"Channel.recv": "self.in_buffer", "Channel.recv_stderr": "self.in_stderr_buffer"}
+    # bytes handed to the application from a receive buffer, or a payload discarded on arrival
+    allowed_bufs = {"Channel.recv": "self.in_buffer.read(", "Channel.recv_stderr": "self.in_stderr_buffer.read(",
+                    "Channel._feed_extended": "m.get_binary("}
     for fq in sorted(adj):
         f = prog.func(fq)
         ff = Flow(prog, f)
@@ -218,7 +220,14 @@ def run(prog, chk):
                     cn = [x for (x, k) in ff.nodes_with_call(name="self._check_add_window")][0]
                     src_ = ff.expand_text(arg.args[0], cn, depth=1)
                     buf = allowed_bufs.get(fq)
-                    ok = buf is not None and len(src_) == 1 and src_[0].startswith(buf + ".read(")
+                    ok = buf is not None and len(src_) == 1 and src_[0].startswith(buf)
+                    if ok and fq == "Channel._feed_extended":
+                        # a discarded payload: it must not also be buffered on that path
+                        feeds = [x for (x, k) in ff.nodes_with_call() if (dotted(k.func) or "") in (
+                            "self.in_buffer.feed", "self.in_stderr_buffer.feed", "self._feed")]
+                        r = ff.cfg.reach([cn.id])
+                        back = ff.cfg.reach([cn.id], forward=False)
+                        ok = not any(x.id in r or x.id in back for x in feeds)
                     detail = "amount <- _check_add_window(len(%s))" % src_
                     # adjust sent only for a positive amount
                     g = ff.edge_guard(lambda t: M.at_least(t, unparse(c.args[0]), 1), "T")
